@@ -311,6 +311,28 @@ def getitem (s : BL) : Idx → Res BL
     | .error e => .err e
     | .ok sel => getSel s sel
 
+/-- How an index object lies in memory.  Cython typed memoryviews refuse some layouts before any bond is touched:
+`_invert_index(IndexType[:] …)` rejects a byte-swapped integer array ("Big-endian buffer not supported"), and
+`mask_v = mask` (a writable `uint8[:]` view) rejects a read-only boolean mask. -/
+inductive Layout where
+  | native | byteSwapped | readOnly
+  deriving Repr, DecidableEq
+
+def getitemL (s : BL) (ix : Idx) : Layout → Res BL
+  | .native => getitem s ix
+  | .byteSwapped =>
+    match ix with
+    | .arr is =>
+      match normArr s.n is with        -- `_to_positive_index_array` (numpy) runs first
+      | none => .err .indexError
+      | some _ => .err .valueError
+    | _ => getitem s ix
+  | .readOnly =>
+    match ix with
+    | .mask _ => .err .valueError
+    | .smask _ => .err .valueError
+    | _ => getitem s ix
+
 /-! ## Views -/
 
 /-- `(neighbour, type)` of every bond touching atom `k`, in array order (a self bond once). -/
